@@ -268,3 +268,96 @@ def ref_cauchy_decrease(ctx):
     t = max(t, 0.0)
     dec = -(t * gd + 0.5 * t * t * c)
     return max(dec, 0.0), nd
+
+
+def ref_gcp_decrease(ctx):
+    """Decrease at the generalized Cauchy point: the first local minimiser of q along the projected-gradient path
+    p(t) = clip(-t*g, xl, xu), t >= 0, truncated at the trust-region boundary (Conn, Gould & Toint)."""
+    g, H, xl, xu, delta = ctx["g"], ctx["H"], ctx["xl"], ctx["xu"], ctx["delta"]
+    n = g.size
+    d = -g.astype(float)
+    tb = np.full(n, INF)
+    for i in range(n):
+        if d[i] > 0:
+            tb[i] = xu[i] / d[i] if xu[i] < INF else INF
+        elif d[i] < 0:
+            tb[i] = xl[i] / d[i] if xl[i] > -INF else INF
+        else:
+            tb[i] = INF
+    x = np.zeros(n)
+    t = 0.0
+    active = d != 0
+    # coordinates that cannot move at all
+    for i in range(n):
+        if tb[i] <= 0:
+            active[i] = False
+    order = sorted(set(v for v in tb[active] if v < INF)) + [INF]
+    qx = 0.0
+    for tnext in order:
+        dj = np.where(active, d, 0.0)
+        if not np.any(dj != 0):
+            break
+        gx = g + H @ x
+        fp = float(gx @ dj)
+        fpp = float(dj @ H @ dj)
+        if fp >= 0:
+            break
+        seg = tnext - t
+        tau = seg
+        if fpp > 0:
+            tau = min(tau, -fp / fpp)
+        # trust-region truncation: |x + tau*dj| <= delta
+        a = float(dj @ dj)
+        b = float(x @ dj)
+        c = float(x @ x) - delta * delta
+        disc = b * b - a * c
+        if a > 0 and disc >= 0:
+            tau_tr = (-b + np.sqrt(disc)) / a
+            tau = min(tau, max(tau_tr, 0.0))
+            hit_tr = tau_tr <= min(seg, (-fp / fpp) if fpp > 0 else INF)
+        else:
+            hit_tr = False
+        if not np.isfinite(tau):
+            tau = 0.0 if not np.isfinite(seg) else seg
+        x = x + tau * dj
+        x = np.clip(x, xl, xu)
+        qx = float(g @ x + 0.5 * x @ H @ x)
+        if hit_tr or tau < seg:
+            break
+        t = tnext
+        for i in range(n):
+            if active[i] and tb[i] <= tnext:
+                active[i] = False
+    return max(-qx, 0.0)
+
+
+def tiny_along_path(ctx):
+    """True if, somewhere along the active-set path, the reduced gradient falls below the solver's absolute
+    non-descent threshold |d|^2 <= 10*eps*n*max(1,|grad|) (known finding D15)."""
+    g, H, xl, xu = ctx["g"], ctx["H"], ctx["xl"], ctx["xu"]
+    n = g.size
+    free = ((xl < 0) | (g < 0)) & ((xu > 0) | (g > 0))
+    x = np.zeros(n)
+    for _ in range(n + 1):
+        grad = g + H @ x
+        fr = free & ~(((x <= xl) & (grad > 0)) | ((x >= xu) & (grad < 0)))
+        nd2 = float(np.sum(grad[fr] ** 2))
+        if nd2 <= 10 * EPS * n * max(1.0, float(np.linalg.norm(grad))):
+            return True
+        dd = np.where(fr, -grad, 0.0)
+        tmin, imin = INF, None
+        for i in range(n):
+            if dd[i] > 0 and xu[i] < INF:
+                t = (xu[i] - x[i]) / dd[i]
+            elif dd[i] < 0 and xl[i] > -INF:
+                t = (xl[i] - x[i]) / dd[i]
+            else:
+                continue
+            if t < tmin:
+                tmin, imin = t, i
+        if imin is None:
+            return False
+        x = np.clip(x + tmin * dd, xl, xu)
+        free = free.copy()
+        free[imin] = False
+    return False
